@@ -19,6 +19,21 @@ TEXT = {
         'note': NOTE_COMMON,
         'technique': 'Lean 4 proof: symbolic carry-vector lemmas (BitVec.carry + omega) + per-slot simp obligations; differential correspondence as tie',
     },
+    'C02': {
+        'text': 'Machine-checked: every Go ALU/flag helper (regenerated from accum.go etc.) equals the arithmetic definition for EVERY A, operand and incoming F — '
+                'binary 8-bit ops by a symbolic carry-vector proof (no enumeration), unary ops/rotates/BIT/DAA by kernel `decide` over their COMPLETE finite table; '
+                '559 per-encoding obligations lift this to Gen.Step for every operand encoding (B..A, (HL), n, IXH/IXL/IYH/IYL, (IX+d), (IY+d)); '
+                'the reference ALU step is a function of (op, A, operand, F) only, hence encoding independent.',
+        'note': NOTE_COMMON,
+        'technique': 'Lean 4 proof: symbolic BitVec carry lemmas + decide over full unary tables + per-slot simp obligations; differential correspondence as tie',
+    },
+    'C04': {
+        'text': 'Machine-checked: every Jump/CallRet/Stack encoding executes the reference instruction (per-slot obligations over the regenerated code); '
+                'about the reference: taken iff condition for all 256 F (conditions decoded from opcode bits), untaken forms only skip operand bytes, DJNZ for all B, '
+                'CALL/RST push layout, CALL;RET and PUSH;POP round trips for EVERY state including SP wrap, signed relative offsets, no flag change.',
+        'note': NOTE_COMMON,
+        'technique': 'Lean 4 proof: per-slot simp obligations + spec-level theorems (bv_omega for wrap-around); differential correspondence as tie',
+    },
     'C16': {
         'text': 'Machine-checked symbolic bit-vector theorems over the definitions regenerated from flag.go/z80.go: GetFlag = any-named-bit, '
                 'SetFlag = F|m, ResetFlag = F&~m for all masks and all F, frame (A and all other fields unchanged), constants = Z80 bit positions, '
